@@ -326,9 +326,10 @@ class MidiFile:
         if self.type == 2:
             raise TypeError("can't merge tracks in type 2 (asynchronous) file")
 
-        if self._merged_track is None:
-            self._merged_track = merge_tracks(self.tracks, skip_checks=True)
-        return self._merged_track
+        # Not cached: the tracks and their messages can be edited at any
+        # time (only add_track() could invalidate a cache), and a stale
+        # merge made iteration, length and play() ignore the edits.
+        return merge_tracks(self.tracks, skip_checks=True)
 
     @merged_track.deleter
     def merged_track(self):
